@@ -253,9 +253,42 @@ class Row:
         return "Row(%s %s %s %s)" % (self.end, self.value, self.exc, self.facts)
 
 
+def feasible(path):
+    """False when a branch decision on the path contradicts a constant assigned to the tested name earlier on the same path
+    (`x = None` ... `if x is None:` not taken)."""
+    env = {}
+    for e in path.events:
+        if e[0] == "stmt":
+            st = e[1]
+            tgts = []
+            if isinstance(st, ast.Assign):
+                tgts = [t for t in st.targets]
+                v = st.value
+            elif isinstance(st, (ast.AnnAssign, ast.AugAssign)):
+                tgts, v = [st.target], None
+            for t in tgts:
+                for x in ast.walk(t):
+                    if isinstance(x, ast.Name):
+                        if isinstance(t, ast.Name) and isinstance(st, ast.Assign) and isinstance(v, ast.Constant):
+                            env[x.id] = v.value
+                        else:
+                            env.pop(x.id, None)
+        elif e[0] == "cond":
+            for a in atoms(e[1], e[2]):
+                if a[0] == "none" and a[1] in env and (env[a[1]] is None) != a[2]:
+                    return False
+                if a[0] == "truthy" and a[1] in env and bool(env[a[1]]) != a[2]:
+                    return False
+        elif e[0] in ("loop", "with", "handler", "def"):
+            env.clear()
+    return True
+
+
 def outcomes(stmts, al=None):
     rows = []
     for p in enum_paths(stmts):
+        if not feasible(p):
+            continue
         r = Row()
         r.path, r.end = p, p.end
         r.facts = facts(p, None, al)
